@@ -15,7 +15,7 @@ Theorem C18_telstate_keys :
   /\ ts_inherit_key = "inherit"%string /\ fl_type_key = "stream_type"%string /\ fl_src_key = "src_streams"%string
   /\ fl_archived_key = "sdp_archived_streams"%string /\ ts_sep = "_"%string
   /\ ds_chunk_info_key = "chunk_info"%string /\ fl_chunk_info_key = "chunk_info"%string
-  /\ ds_dumps_array = "correlator_data"%string.
+  /\ ds_dumps_array = "correlator_data"%string /\ ci_prefix_key = "chunk_name"%string.
 Proof. exact telstate_keys. Qed.
 Print Assumptions C18_telstate_keys.
 
@@ -197,7 +197,7 @@ Theorem C18_span_however_opened : forall u stream cur archived, (0 <= c_dumps cu
          then spec_upgrade stream cur archived else Ok cur) with
   | Err e => Err e
   | Ok c => let n := Z.max (c_dumps cur) (c_dumps c) in
-            Ok (mkOpened (match t with Some k => k | None => n end) (if s then Some (n, c_id c) else None))
+            Ok (mkOpened (match t with Some k => k | None => n end) (if s then Some (n, c_id c, c_from c) else None))
   end.
 Proof. exact span_however_opened. Qed.
 Print Assumptions C18_span_however_opened.
